@@ -163,6 +163,9 @@ Definition holds (c : case) (o : obs) : list string :=
 
 Definition valid (c : case) : Prop := c_old c = false.
 
+(* [valid] as a boolean (C10.Props.C10_validb_valid) *)
+Definition validb (c : case) : bool := negb (c_old c).
+
 (* ---------- sx ---------- *)
 Definition dec_field (x : sx) : option field :=
   match x with B s => Some (FS s) | I z => Some (FI z) | _ => None end.
@@ -244,5 +247,5 @@ Definition entry (x : sx) : sx :=
   | None => sxS "bad-case"
   | Some (c, io) =>
       let m := run_model c in
-      L [ enc_obs m; L (map sxS (holds c m)); L (map sxS (holds c io)); enc_obs (spec_obs c) ]
+      L [ enc_obs m; L (map sxS (holds c m)); L (map sxS (holds c io)); enc_obs (spec_obs c); sxBool (validb c) ]
   end.
